@@ -132,3 +132,11 @@ Definition i32_unpack_value_err (v : value) : rres Z :=
   | VInt r => match unpack_i32 r with Some x => ROk x | None => RErr E_IncorrectType end
   | _ => RErr E_IncorrectType
   end.
+
+(* ---- range_type.rs ------------------------------------------------------------------------------- *)
+Record range := { f_start : Z; f_stop : Z; f_step : Z }.     (* step: NonZeroI32, `.get()` is the identity *)
+Definition m_unsigned_abs := Z.abs.
+Definition m_is_multiple_of (a b : Z) : bool := if b =? 0 then a =? 0 else a mod b =? 0.
+(* Value::unpack_num().and_then(NumRef::as_int): an integer value that is an i32 (floats are `VOther` here) *)
+Definition m_unpack_num (v : value) : option rep := StarlarkIntRef_unpack v.
+Definition m_as_int (r : rep) : option Z := unpack_i32 r.
